@@ -293,6 +293,134 @@ fn enumerate(t: Tier) -> Box<dyn Iterator<Item = Case>> {
     }))
 }
 
+
+// ---------------------------------------------------------------------------
+// large scale: sequence lengths across 255..257, 511..513, 1023..1025 over the letters, over a few
+// extreme byte values and over all 256 byte values (0x00 and 0xFF included), with an earlier call of
+// the same shape on the same aligner
+
+pub mod large {
+    use super::*;
+    use crate::oracles::prng::Sm;
+
+    #[derive(Serialize, Deserialize, Debug, Clone)]
+    pub struct Case {
+        pub spec: ScoreSpec,
+        pub mode: Mode,
+        pub m: usize,
+        pub n: usize,
+        /// 0: letters of the score table, 1: the bytes 0x00 0x01 0x7f 0x80 0xfe 0xff, 2: all 256 byte values
+        pub content: u8,
+        pub seed: u64,
+        /// y is x with this many random edits (then cut / padded to length n); 65535 = independent
+        pub edits: u16,
+        /// an earlier call on the same aligner with sequences of the same lengths in this mode
+        pub earlier: Option<Mode>,
+    }
+
+    fn symbols(g: &mut Sm, len: usize, content: u8, sigma: u8) -> Vec<u8> {
+        const EXTREME: [u8; 6] = [0x00, 0x01, 0x7f, 0x80, 0xfe, 0xff];
+        (0..len)
+            .map(|_| match content {
+                0 => b'a' + g.below(sigma as u64) as u8,
+                1 => EXTREME[g.below(6) as usize],
+                _ => g.next() as u8,
+            })
+            .collect()
+    }
+
+    pub fn sequences(c: &Case, salt: u64) -> (Vec<u8>, Vec<u8>) {
+        gen_pair(c.seed ^ salt, c.m, c.n, c.content, c.spec.sigma, c.edits)
+    }
+
+    /// x random over the chosen content, y = x with `edits` random edits (65535: independent), cut / padded to n
+    pub fn gen_pair(seed: u64, m: usize, n: usize, content: u8, sigma: u8, edits: u16) -> (Vec<u8>, Vec<u8>) {
+        struct C {
+            m: usize,
+            n: usize,
+            content: u8,
+            edits: u16,
+            spec: Sg,
+        }
+        struct Sg {
+            sigma: u8,
+        }
+        let c = C { m, n, content, edits, spec: Sg { sigma } };
+        let mut g = Sm::new(seed);
+        let x = symbols(&mut g, c.m, c.content, c.spec.sigma);
+        let mut y = if c.edits == u16::MAX {
+            symbols(&mut g, c.n, c.content, c.spec.sigma)
+        } else {
+            let mut y = x.clone();
+            for _ in 0..c.edits {
+                let s = symbols(&mut g, 1, c.content, c.spec.sigma)[0];
+                match g.below(3) {
+                    0 if !y.is_empty() => {
+                        let i = g.below(y.len() as u64) as usize;
+                        y[i] = s;
+                    }
+                    1 => {
+                        let i = g.below(y.len() as u64 + 1) as usize;
+                        y.insert(i, s);
+                    }
+                    _ if !y.is_empty() => {
+                        let i = g.below(y.len() as u64) as usize;
+                        y.remove(i);
+                    }
+                    _ => {}
+                }
+            }
+            y
+        };
+        y.truncate(c.n);
+        while y.len() < c.n {
+            y.push(symbols(&mut g, 1, c.content, c.spec.sigma)[0]);
+        }
+        (x, y)
+    }
+
+    pub fn check(c: &Case) -> R {
+        ensure!(c.m <= 1100 && c.n <= 1100, "harness: case outside the large-scale domain");
+        let (x, y) = sequences(c, 0);
+        let call = Call { mode: c.mode, x: B(x), y: B(y) };
+        let mut fresh = Aligner::with_scoring(c.spec.scoring(false));
+        let a_fresh = run_call(&mut fresh, &call);
+        let (v, _) = check_alignment("fresh aligner (large)", &a_fresh, &call, &c.spec)?;
+        if let Some(em) = c.earlier {
+            let (x0, y0) = sequences(c, 0x5eed);
+            let mut used = Aligner::with_scoring(c.spec.scoring(false));
+            let first = Call { mode: em, x: B(x0), y: B(y0) };
+            let a0 = run_call(&mut used, &first);
+            check_alignment("earlier call of the same shape (large)", &a0, &first, &c.spec)?;
+            let a_used = run_call(&mut used, &call);
+            ensure!(a_used == a_fresh, "result depends on the aligner's history (same-shape earlier call in {} mode, lengths {}x{}): score {} vs {} on a fresh aligner, coordinates x {}..{} y {}..{} vs x {}..{} y {}..{}", em.name(), c.m, c.n, a_used.score, a_fresh.score, a_used.xstart, a_used.xend, a_used.ystart, a_used.yend, a_fresh.xstart, a_fresh.xend, a_fresh.ystart, a_fresh.yend);
+        }
+        let mut p = Pass::new(v.has_gap || v.has_clip);
+        p.add(c.mode.name());
+        for (len, what) in [(c.m, "x"), (c.n, "y")] {
+            match len {
+                255..=257 => p.add(if what == "x" { "|x| in 255..257" } else { "|y| in 255..257" }),
+                511..=513 => p.add(if what == "x" { "|x| in 511..513" } else { "|y| in 511..513" }),
+                1023..=1025 => p.add(if what == "x" { "|x| in 1023..1025" } else { "|y| in 1023..1025" }),
+                _ => {}
+            }
+        }
+        p.add_if((c.m + 1) * (c.n + 1) >= 65536, "matrix of 65536 or more cells");
+        p.add_if(c.content == 1, "extreme byte values (0x00, 0xff, ..)");
+        p.add_if(c.content == 2, "all byte values");
+        p.add_if(c.earlier.is_some(), "reuse with an earlier call of the same shape");
+        Ok(p)
+    }
+
+    pub fn strat(_t: Tier) -> BoxedStrategy<Case> {
+        let len = || prop_oneof![4 => proptest::sample::select(vec![255usize, 256, 257]), 2 => proptest::sample::select(vec![511usize, 512, 513]), 1 => proptest::sample::select(vec![1023usize, 1024, 1025]), 2 => 258usize..=400, 1 => 100usize..=254];
+        (1u8..=4)
+            .prop_flat_map(move |sigma| (spec(sigma), mode(), len(), len(), 0u8..=2, any::<u64>(), prop_oneof![4 => 0u16..=12, 2 => 12u16..=100, 1 => Just(u16::MAX)], proptest::option::weighted(0.4, mode())))
+            .prop_map(|(spec, mode, m, n, content, seed, edits, earlier)| Case { spec, mode, m, n, content, seed, edits, earlier })
+            .boxed()
+    }
+}
+
 pub fn property() -> Property {
     Property {
         id: "C01",
@@ -303,6 +431,7 @@ pub fn property() -> Property {
         ],
         subs: vec![
             Box::new(PropSub { name: "C01/small-definition", quick: 480_000, thorough: 12_000_000, shards_quick: 16, shards_thorough: 16, strat: strat_small, check, must_reach: &["custom", "global", "semiglobal", "local", "clipped end", "gap in path", "empty input", "reuse", "definition oracle (all sub-range pairs)", "gap_extend=0"], watch: true }),
+            Box::new(PropSub { name: "C01/large", quick: 1_600, thorough: 40_000, shards_quick: 16, shards_thorough: 16, strat: large::strat, check: large::check, must_reach: &["|x| in 255..257", "|y| in 255..257", "|x| in 511..513", "|x| in 1023..1025", "matrix of 65536 or more cells", "extreme byte values (0x00, 0xff, ..)", "all byte values", "reuse with an earlier call of the same shape", "custom", "global", "semiglobal", "local"], watch: true }),
             Box::new(ExhSub { name: "C01/exhaustive", enumerate, check, must_reach: &["custom", "global", "semiglobal", "local", "clipped end", "gap in path", "both empty"] }),
             Box::new(PropSub { name: "C01/large-reference", quick: 96_000, thorough: 2_000_000, shards_quick: 16, shards_thorough: 16, strat: strat_large, check, must_reach: &["reference DP oracle", "reuse"], watch: true }),
         ],
